@@ -210,11 +210,13 @@ def limit_memory_usage(quota_or_engine, *args):
     if quota <= 0:
         return
 
+    # terms may be negative (e.g. the estimate for repetition by a negative
+    # count), so only the sum is meaningful
     total = 0
     for t in args:
         total += t[0] * sys.getsizeof(t[1], 0)
-        if total > quota:
-            raise exceptions.MemoryQuotaExceededException()
+    if total > quota:
+        raise exceptions.MemoryQuotaExceededException()
 
 
 def to_extension_method(name, context):
